@@ -1,0 +1,745 @@
+//! Deterministic-simulation hooks. Compiled only with the `verif-hooks`
+//! feature; nothing in the shipped crate refers to this module otherwise.
+//!
+//! The module implements a *token-passing scheduler*: threads that belong to a
+//! simulation run real code, but exactly one of them holds the run token at any
+//! time. A thread gives the token up only at [`yield_point`] / [`block_until`]
+//! / thread exit, and the next holder is chosen by a PRNG seeded by the
+//! harness (or read from a recorded trace), so that one seed is one exactly
+//! repeatable interleaving. A simulation with no runnable thread left is a
+//! *deadlock*, reported through the abort callback.
+//!
+//! It also carries two process-global side tables used by the harness:
+//! *knobs* (overrides for internal size thresholds, "buggify") and *probes*
+//! (reach counters).
+
+use std::{
+    cell::RefCell,
+    collections::{HashMap, HashSet},
+    sync::{
+        Arc, Mutex, OnceLock,
+        atomic::{AtomicBool, AtomicU64, Ordering},
+    },
+    thread::{self, JoinHandle, Thread, ThreadId},
+};
+
+/// Identifiers of hook sites. A run enables a subset of them.
+pub mod site {
+    pub const WORKER_RECV: u32 = 0;
+    pub const SCOPE_HELP: u32 = 1;
+    pub const SCOPE_DONE: u32 = 2;
+    pub const SPAWN: u32 = 3;
+    pub const COMPLETE: u32 = 4;
+    pub const BACKUP: u32 = 5;
+    pub const JOIN: u32 = 6;
+    pub const NOTIFICATION: u32 = 7;
+    pub const ONCE: u32 = 8;
+    pub const MUTEX: u32 = 9;
+    pub const UF_FIND: u32 = 10;
+    pub const UF_MERGE: u32 = 11;
+    pub const UF_RESIZE: u32 = 12;
+    pub const CVEC: u32 = 13;
+    pub const PWRITER: u32 = 14;
+    pub const NLIST: u32 = 15;
+    pub const ROLOCK: u32 = 16;
+    pub const RULE_TASK: u32 = 17;
+    pub const JOIN_STAGE: u32 = 18;
+    pub const ACTION_FLUSH: u32 = 19;
+    pub const TABLE_SHARD: u32 = 20;
+    pub const REBUILD_CHUNK: u32 = 21;
+    pub const CONTAINER: u32 = 22;
+    pub const INDEX_BUILD: u32 = 23;
+    pub const MERGE_ALL: u32 = 24;
+    pub const USER: u32 = 25;
+    pub const USER2: u32 = 26;
+    pub const ARENA: u32 = 27;
+    pub const COUNT: usize = 28;
+    pub const NAMES: [&str; COUNT] = [
+        "worker_recv",
+        "scope_help",
+        "scope_done",
+        "spawn",
+        "complete",
+        "backup",
+        "join",
+        "notification",
+        "once",
+        "mutex",
+        "uf_find",
+        "uf_merge",
+        "uf_resize",
+        "cvec",
+        "pwriter",
+        "nlist",
+        "rolock",
+        "rule_task",
+        "join_stage",
+        "action_flush",
+        "table_shard",
+        "rebuild_chunk",
+        "container",
+        "index_build",
+        "merge_all",
+        "user",
+        "user2",
+        "arena",
+    ];
+    /// Sites that replace a blocking wait. They cannot be disabled.
+    pub const BLOCKING: u64 = (1 << WORKER_RECV)
+        | (1 << SCOPE_HELP)
+        | (1 << SCOPE_DONE)
+        | (1 << BACKUP)
+        | (1 << JOIN)
+        | (1 << NOTIFICATION)
+        | (1 << ONCE)
+        | (1 << MUTEX);
+}
+
+/// Scheduling policy of a simulation.
+#[derive(Clone, Debug)]
+pub enum Policy {
+    /// Uniform choice among the candidates.
+    Random,
+    /// Stay on the current thread with probability `p / 256`.
+    Sticky(u8),
+    /// Random priorities with `changes` priority change points drawn from the
+    /// first `horizon` steps.
+    Pct { changes: u32, horizon: u64 },
+    /// The `victim`-th created slot runs only when nothing else can.
+    Starve(u32),
+}
+
+/// Configuration of one simulation.
+#[derive(Clone, Debug)]
+pub struct SimConfig {
+    pub seed: u64,
+    pub policy: Policy,
+    /// Bit set of enabled *optional* yield sites (blocking sites are always on).
+    pub sites: u64,
+    pub max_steps: u64,
+    /// When set, scheduling choices are read from this trace instead of the PRNG.
+    pub replay: Option<Vec<u32>>,
+    /// Keep the full choice trace in the report.
+    pub record: bool,
+}
+
+impl SimConfig {
+    pub fn new(seed: u64) -> Self {
+        SimConfig {
+            seed,
+            policy: Policy::Random,
+            sites: u64::MAX,
+            max_steps: 5_000_000,
+            replay: None,
+            record: true,
+        }
+    }
+}
+
+/// Why a simulation was cut short.
+#[derive(Clone, Debug, PartialEq, Eq)]
+pub enum Abort {
+    Deadlock,
+    StepLimit,
+}
+
+/// What a simulation did.
+#[derive(Clone, Debug, Default)]
+pub struct SimReport {
+    pub steps: u64,
+    pub handovers: u64,
+    pub decisions: u64,
+    pub threads: u64,
+    pub trace_hash: u64,
+    pub trace: Vec<u32>,
+    pub replay_diverged: bool,
+    pub site_hits: Vec<u64>,
+    pub abort: Option<String>,
+    /// Unfinished slots when the report was taken, with the site they wait at.
+    pub waiting: Vec<(u32, String)>,
+}
+
+#[derive(Clone, Copy, PartialEq, Eq, Debug)]
+enum State {
+    Runnable,
+    Blocked,
+    Finished,
+}
+
+struct Slot {
+    state: State,
+    seen_epoch: u64,
+    thread: Option<Thread>,
+    go: bool,
+    prio: u64,
+    last_site: u32,
+}
+
+struct Inner {
+    slots: Vec<Slot>,
+    epoch: u64,
+    steps: u64,
+    handovers: u64,
+    decisions: u64,
+    rng: u64,
+    policy: Policy,
+    pct_points: Vec<u64>,
+    trace: Vec<u32>,
+    record: bool,
+    replay: Option<Vec<u32>>,
+    replay_pos: usize,
+    replay_diverged: bool,
+    trace_hash: u64,
+    tids: HashMap<ThreadId, usize>,
+    sections: HashSet<usize>,
+    site_hits: [u64; site::COUNT],
+    max_steps: u64,
+}
+
+/// A simulation. Created by [`run_sim`].
+pub struct Sim {
+    inner: Mutex<Inner>,
+    sites: u64,
+}
+
+thread_local! {
+    static HANDLE: RefCell<Option<(Arc<Sim>, usize)>> = const { RefCell::new(None) };
+}
+
+static GLOBAL_TICK: AtomicU64 = AtomicU64::new(0);
+static LAST_SITE: AtomicU64 = AtomicU64::new(0);
+static SIMS_ACTIVE: AtomicU64 = AtomicU64::new(0);
+
+type AbortFn = Box<dyn Fn(&Abort, &SimReport) + Send + Sync>;
+static ON_ABORT: OnceLock<AbortFn> = OnceLock::new();
+
+/// Install the process-wide handler called when a simulation deadlocks or runs
+/// out of steps. It is expected not to return (the other threads of the
+/// simulation stay parked for ever); if it does the process is aborted.
+pub fn set_abort_handler(f: AbortFn) {
+    let _ = ON_ABORT.set(f);
+}
+
+/// Monotone counter of scheduler steps of this process (for watchdogs).
+pub fn global_tick() -> u64 {
+    GLOBAL_TICK.load(Ordering::Relaxed)
+}
+
+/// Name of the site of the most recent scheduler step (for watchdogs).
+pub fn last_site() -> &'static str {
+    site::NAMES[(LAST_SITE.load(Ordering::Relaxed) as usize).min(site::COUNT - 1)]
+}
+
+/// Number of simulations currently running in this process.
+pub fn sims_active() -> u64 {
+    SIMS_ACTIVE.load(Ordering::Relaxed)
+}
+
+fn splitmix(state: &mut u64) -> u64 {
+    *state = state.wrapping_add(0x9E37_79B9_7F4A_7C15);
+    let mut z = *state;
+    z = (z ^ (z >> 30)).wrapping_mul(0xBF58_476D_1CE4_E5B9);
+    z = (z ^ (z >> 27)).wrapping_mul(0x94D0_49BB_1331_11EB);
+    z ^ (z >> 31)
+}
+
+fn handle() -> Option<(Arc<Sim>, usize)> {
+    HANDLE.with(|h| h.borrow().clone())
+}
+
+/// Whether the calling thread belongs to a running simulation.
+#[inline]
+pub fn in_sim() -> bool {
+    if SIMS_ACTIVE.load(Ordering::Relaxed) == 0 {
+        return false;
+    }
+    HANDLE.with(|h| h.borrow().is_some())
+}
+
+/// The simulation's logical clock (number of scheduler steps so far), or 0.
+pub fn now() -> u64 {
+    match handle() {
+        Some((sim, _)) => sim.inner.lock().unwrap().steps,
+        None => 0,
+    }
+}
+
+impl Inner {
+    fn report(&self, abort: Option<&Abort>) -> SimReport {
+        SimReport {
+            steps: self.steps,
+            handovers: self.handovers,
+            decisions: self.decisions,
+            threads: self.slots.len() as u64,
+            trace_hash: self.trace_hash,
+            trace: self.trace.clone(),
+            replay_diverged: self.replay_diverged,
+            site_hits: self.site_hits.to_vec(),
+            abort: abort.map(|a| format!("{a:?}")),
+            waiting: self
+                .slots
+                .iter()
+                .enumerate()
+                .filter(|(_, s)| s.state != State::Finished)
+                .map(|(i, s)| {
+                    (
+                        i as u32,
+                        format!("{:?}@{}", s.state, site::NAMES[s.last_site as usize]),
+                    )
+                })
+                .collect(),
+        }
+    }
+
+    fn candidates(&self) -> Vec<usize> {
+        self.slots
+            .iter()
+            .enumerate()
+            .filter(|(_, s)| match s.state {
+                State::Runnable => true,
+                State::Blocked => s.seen_epoch < self.epoch,
+                State::Finished => false,
+            })
+            .map(|(i, _)| i)
+            .collect()
+    }
+
+    fn rand(&mut self, n: usize) -> usize {
+        (splitmix(&mut self.rng) % (n as u64)) as usize
+    }
+
+    /// Pick the next token holder among `cands` (non-empty).
+    fn choose(&mut self, me: usize, cands: &[usize], site: u32) -> usize {
+        let pick = if cands.len() == 1 {
+            cands[0]
+        } else {
+            self.decisions += 1;
+            let from_replay = match &self.replay {
+                Some(tr) => {
+                    let r = tr.get(self.replay_pos).copied();
+                    self.replay_pos += 1;
+                    match r {
+                        Some(c) if cands.contains(&(c as usize)) => Some(c as usize),
+                        _ => {
+                            self.replay_diverged = true;
+                            Some(if cands.contains(&me) { me } else { cands[0] })
+                        }
+                    }
+                }
+                None => None,
+            };
+            let pick = match from_replay {
+                Some(p) => p,
+                None => match self.policy.clone() {
+                    Policy::Random => cands[self.rand(cands.len())],
+                    Policy::Sticky(p) => {
+                        let stay = (splitmix(&mut self.rng) & 0xff) < p as u64;
+                        if stay && cands.contains(&me) {
+                            me
+                        } else {
+                            cands[self.rand(cands.len())]
+                        }
+                    }
+                    Policy::Pct { .. } => {
+                        if self.pct_points.contains(&self.steps) {
+                            // demote the currently highest-priority candidate
+                            let top = *cands.iter().max_by_key(|&&i| self.slots[i].prio).unwrap();
+                            let low = self.slots.iter().map(|s| s.prio).min().unwrap_or(1);
+                            self.slots[top].prio = low.saturating_sub(1);
+                        }
+                        *cands.iter().max_by_key(|&&i| self.slots[i].prio).unwrap()
+                    }
+                    Policy::Starve(v) => {
+                        let others: Vec<usize> =
+                            cands.iter().copied().filter(|&i| i != v as usize).collect();
+                        if others.is_empty() {
+                            cands[0]
+                        } else {
+                            others[self.rand(others.len())]
+                        }
+                    }
+                },
+            };
+            if self.record {
+                self.trace.push(pick as u32);
+            }
+            pick
+        };
+        // FNV-style running hash over (site, chosen slot): the identity of the
+        // interleaving.
+        self.trace_hash = (self.trace_hash ^ ((site as u64) << 32 | pick as u64))
+            .wrapping_mul(0x0000_0100_0000_01B3);
+        pick
+    }
+}
+
+impl Sim {
+    fn abort(&self, inner: std::sync::MutexGuard<'_, Inner>, why: Abort) -> ! {
+        let report = inner.report(Some(&why));
+        drop(inner);
+        if let Some(f) = ON_ABORT.get() {
+            f(&why, &report);
+        }
+        eprintln!("egglog verif: simulation aborted: {why:?} {:?}", report.waiting);
+        std::process::abort();
+    }
+
+    /// Give the token to `next` (already chosen). Must be called with the lock held.
+    fn hand_to(inner: &mut Inner, me: usize, next: usize) {
+        if next == me {
+            return;
+        }
+        inner.handovers += 1;
+        inner.slots[next].go = true;
+        if let Some(t) = &inner.slots[next].thread {
+            t.unpark();
+        }
+    }
+
+    fn wait_for_go(&self, me: usize) {
+        loop {
+            {
+                let mut inner = self.inner.lock().unwrap();
+                if inner.slots[me].go {
+                    inner.slots[me].go = false;
+                    return;
+                }
+            }
+            thread::park();
+        }
+    }
+
+    fn step(&self, me: usize, site: u32, blocking: bool, first_block: bool) {
+        let mut inner = self.inner.lock().unwrap();
+        inner.steps += 1;
+        GLOBAL_TICK.fetch_add(1, Ordering::Relaxed);
+        LAST_SITE.store(site as u64, Ordering::Relaxed);
+        inner.site_hits[site as usize] += 1;
+        inner.slots[me].last_site = site;
+        if inner.steps > inner.max_steps {
+            self.abort(inner, Abort::StepLimit);
+        }
+        if blocking {
+            if first_block {
+                inner.epoch += 1;
+            }
+            inner.slots[me].state = State::Blocked;
+            inner.slots[me].seen_epoch = inner.epoch;
+        } else {
+            inner.epoch += 1;
+        }
+        let cands = inner.candidates();
+        if cands.is_empty() {
+            self.abort(inner, Abort::Deadlock);
+        }
+        let next = inner.choose(me, &cands, site);
+        Sim::hand_to(&mut inner, me, next);
+        drop(inner);
+        if next != me {
+            self.wait_for_go(me);
+        }
+        if blocking {
+            self.inner.lock().unwrap().slots[me].state = State::Runnable;
+        }
+    }
+}
+
+/// A point where the calling thread may be descheduled. No engine lock may be
+/// held here. A no-op outside a simulation or when `site` is disabled.
+#[inline]
+pub fn yield_point(site: u32) {
+    if SIMS_ACTIVE.load(Ordering::Relaxed) == 0 {
+        return;
+    }
+    if let Some((sim, me)) = handle() {
+        if sim.sites & (1 << site) != 0 {
+            sim.step(me, site, false, false);
+        }
+    }
+}
+
+/// Wait, inside a simulation, until `f` returns `Some`. `f` is evaluated only
+/// while the caller holds the token, so a successful evaluation may consume
+/// (e.g. `try_recv`). Must only be called when [`in_sim`] is true.
+pub fn block_until_some<T>(site: u32, mut f: impl FnMut() -> Option<T>) -> T {
+    let (sim, me) = handle().expect("block_until outside a simulation");
+    let mut first = true;
+    loop {
+        if let Some(v) = f() {
+            return v;
+        }
+        sim.step(me, site, true, first);
+        first = false;
+    }
+}
+
+/// Wait, inside a simulation, until `cond` holds.
+pub fn block_until(site: u32, mut cond: impl FnMut() -> bool) {
+    block_until_some(site, || if cond() { Some(()) } else { None })
+}
+
+/// Simulated blocking receive on a crossbeam channel.
+pub fn sim_recv<T>(
+    site: u32,
+    r: &crossbeam::channel::Receiver<T>,
+) -> Result<T, crossbeam::channel::RecvError> {
+    use crossbeam::channel::TryRecvError;
+    block_until_some(site, || match r.try_recv() {
+        Ok(v) => Some(Ok(v)),
+        Err(TryRecvError::Empty) => None,
+        Err(TryRecvError::Disconnected) => Some(Err(crossbeam::channel::RecvError)),
+    })
+}
+
+/// A slot reserved by the token holder for a thread it is about to spawn.
+pub struct Child {
+    sim: Arc<Sim>,
+    idx: usize,
+}
+
+/// Reserve a slot for a thread about to be spawned; `None` outside a simulation.
+pub fn new_child() -> Option<Child> {
+    let (sim, _me) = handle()?;
+    let idx = {
+        let mut inner = sim.inner.lock().unwrap();
+        let prio = splitmix(&mut inner.rng) | (1 << 63);
+        inner.slots.push(Slot {
+            state: State::Runnable,
+            seen_epoch: 0,
+            thread: None,
+            go: false,
+            prio,
+            last_site: 0,
+        });
+        inner.slots.len() - 1
+    };
+    Some(Child { sim, idx })
+}
+
+/// Marks the slot finished and passes the token on when dropped.
+pub struct SlotGuard {
+    sim: Arc<Sim>,
+    idx: usize,
+}
+
+impl Child {
+    /// Called first thing on the new thread: joins the simulation and parks
+    /// until scheduled.
+    pub fn bind(self) -> SlotGuard {
+        HANDLE.with(|h| *h.borrow_mut() = Some((self.sim.clone(), self.idx)));
+        {
+            let mut inner = self.sim.inner.lock().unwrap();
+            inner.slots[self.idx].thread = Some(thread::current());
+            inner.tids.insert(thread::current().id(), self.idx);
+        }
+        self.sim.wait_for_go(self.idx);
+        SlotGuard {
+            sim: self.sim,
+            idx: self.idx,
+        }
+    }
+}
+
+impl Drop for SlotGuard {
+    fn drop(&mut self) {
+        HANDLE.with(|h| *h.borrow_mut() = None);
+        let mut inner = self.sim.inner.lock().unwrap();
+        inner.steps += 1;
+        GLOBAL_TICK.fetch_add(1, Ordering::Relaxed);
+        inner.epoch += 1;
+        inner.slots[self.idx].state = State::Finished;
+        let cands = inner.candidates();
+        if cands.is_empty() {
+            if inner.slots.iter().all(|s| s.state == State::Finished) {
+                return;
+            }
+            self.sim.abort(inner, Abort::Deadlock);
+        }
+        let next = inner.choose(self.idx, &cands, site::JOIN);
+        Sim::hand_to(&mut inner, self.idx, next);
+    }
+}
+
+/// Spawn a thread that takes part in the current simulation (harness helper).
+/// Outside a simulation this is `std::thread::spawn`.
+pub fn spawn<T: Send + 'static>(f: impl FnOnce() -> T + Send + 'static) -> JoinHandle<T> {
+    let child = new_child();
+    thread::spawn(move || {
+        let _slot = child.map(|c| c.bind());
+        f()
+    })
+}
+
+/// To be called before a real `JoinHandle::join`: waits, in simulated time,
+/// until the thread's slot has finished.
+pub fn sim_join<T>(h: &JoinHandle<T>) {
+    if !in_sim() {
+        return;
+    }
+    let (sim, _) = handle().unwrap();
+    let tid = h.thread().id();
+    block_until(site::JOIN, || {
+        let inner = sim.inner.lock().unwrap();
+        match inner.tids.get(&tid) {
+            Some(&i) => inner.slots[i].state == State::Finished,
+            // Not bound yet: either it has not started (keep waiting) or it is
+            // a thread outside the simulation (never registered; joining it
+            // for real is the only option).
+            None => !inner
+                .slots
+                .iter()
+                .any(|s| s.thread.is_none() && s.state != State::Finished),
+        }
+    });
+}
+
+/// Guard of a simulated critical section (see [`section`]).
+pub struct SectionGuard {
+    sim: Option<Arc<Sim>>,
+    key: usize,
+}
+
+/// Enter a critical section identified by `key` (an address). Inside a
+/// simulation this waits, in simulated time, until no other thread is inside
+/// the section, so that the *real* lock taken right afterwards is never
+/// contended and yield points may be placed inside it.
+pub fn section(site: u32, key: usize) -> SectionGuard {
+    if !in_sim() {
+        return SectionGuard { sim: None, key };
+    }
+    let (sim, _) = handle().unwrap();
+    block_until(site, || {
+        let mut inner = sim.inner.lock().unwrap();
+        if inner.sections.contains(&key) {
+            false
+        } else {
+            inner.sections.insert(key);
+            true
+        }
+    });
+    SectionGuard {
+        sim: Some(sim),
+        key,
+    }
+}
+
+impl Drop for SectionGuard {
+    fn drop(&mut self) {
+        if let Some(sim) = &self.sim {
+            sim.inner.lock().unwrap().sections.remove(&self.key);
+        }
+    }
+}
+
+/// Run `f` as slot 0 of a new simulation on the calling thread.
+pub fn run_sim<R>(cfg: SimConfig, f: impl FnOnce() -> R) -> (std::thread::Result<R>, SimReport) {
+    assert!(!in_sim(), "nested simulations are not supported");
+    let mut rng = cfg.seed ^ 0x5EED_5EED_5EED_5EED;
+    let prio0 = splitmix(&mut rng) | (1 << 63);
+    let mut pct_points = Vec::new();
+    if let Policy::Pct { changes, horizon } = &cfg.policy {
+        for _ in 0..*changes {
+            pct_points.push(1 + splitmix(&mut rng) % (*horizon).max(1));
+        }
+    }
+    let sim = Arc::new(Sim {
+        inner: Mutex::new(Inner {
+            slots: vec![Slot {
+                state: State::Runnable,
+                seen_epoch: 0,
+                thread: Some(thread::current()),
+                go: false,
+                prio: prio0,
+                last_site: 0,
+            }],
+            epoch: 1,
+            steps: 0,
+            handovers: 0,
+            decisions: 0,
+            rng,
+            policy: cfg.policy.clone(),
+            pct_points,
+            trace: Vec::new(),
+            record: cfg.record,
+            replay: cfg.replay.clone(),
+            replay_pos: 0,
+            replay_diverged: false,
+            trace_hash: 0xcbf2_9ce4_8422_2325,
+            tids: HashMap::from([(thread::current().id(), 0)]),
+            sections: HashSet::new(),
+            site_hits: [0; site::COUNT],
+            max_steps: cfg.max_steps,
+        }),
+        sites: cfg.sites | site::BLOCKING,
+    });
+    HANDLE.with(|h| *h.borrow_mut() = Some((sim.clone(), 0)));
+    SIMS_ACTIVE.fetch_add(1, Ordering::SeqCst);
+    let res = std::panic::catch_unwind(std::panic::AssertUnwindSafe(f));
+    HANDLE.with(|h| *h.borrow_mut() = None);
+    SIMS_ACTIVE.fetch_sub(1, Ordering::SeqCst);
+    let report = {
+        let mut inner = sim.inner.lock().unwrap();
+        inner.slots[0].state = State::Finished;
+        let mut r = inner.report(None);
+        r.waiting.retain(|(i, _)| *i != 0);
+        r
+    };
+    (res, report)
+}
+
+// ---------------------------------------------------------------------------
+// knobs and probes (process-global; usable without a simulation)
+
+static ANY_KNOB: AtomicBool = AtomicBool::new(false);
+static KNOBS: Mutex<Option<HashMap<String, u64>>> = Mutex::new(None);
+static PROBES: Mutex<Option<HashMap<&'static str, u64>>> = Mutex::new(None);
+
+/// Override of an internal threshold, if the harness set one.
+#[inline]
+pub fn knob(name: &str) -> Option<u64> {
+    if !ANY_KNOB.load(Ordering::Relaxed) {
+        return None;
+    }
+    KNOBS.lock().unwrap().as_ref()?.get(name).copied()
+}
+
+/// Set (`Some`) or clear (`None`) a knob.
+pub fn set_knob(name: &str, v: Option<u64>) {
+    let mut k = KNOBS.lock().unwrap();
+    let m = k.get_or_insert_with(HashMap::new);
+    match v {
+        Some(v) => {
+            m.insert(name.to_string(), v);
+        }
+        None => {
+            m.remove(name);
+        }
+    }
+    ANY_KNOB.store(!m.is_empty(), Ordering::Relaxed);
+}
+
+/// Clear every knob.
+pub fn clear_knobs() {
+    *KNOBS.lock().unwrap() = None;
+    ANY_KNOB.store(false, Ordering::Relaxed);
+}
+
+/// Count one visit of a named branch.
+#[inline]
+pub fn probe(name: &'static str) {
+    let mut p = PROBES.lock().unwrap();
+    *p.get_or_insert_with(HashMap::new).entry(name).or_insert(0) += 1;
+}
+
+/// Read and reset the probe counters.
+pub fn take_probes() -> Vec<(String, u64)> {
+    let mut p = PROBES.lock().unwrap();
+    let mut v: Vec<(String, u64)> = p
+        .take()
+        .unwrap_or_default()
+        .into_iter()
+        .map(|(k, v)| (k.to_string(), v))
+        .collect();
+    v.sort();
+    v
+}
